@@ -14,6 +14,8 @@ Not decided: finiteness in general (divisions by computed quantities), accuracy.
 Added after the seeding rounds (DESIGN.md 6.6-6.8):
  DOMAIN-GUARD / COUNT.len / FEEDBACK.guard  interval bounds of sqrt/arccos arguments in the fully guarded estimators; one row per sample in the
             integration mode (length analysis); the Madgwick gradient is formed only where norm(f) != 0 is a must-fact.
+Added after refactoring round 3 (DESIGN.md 6.9):
+ loop normal form  enumerate()/zip() sample loops are analysed in their index form (sa/desugar.py); the representation context follows hoisted and negated tests.
 """
 import ast
 LINT_EXTRA_FILES = ("ahrs/common/orientation.py",)      # acc2q / am2q / ecompass helpers the filters start from
